@@ -301,7 +301,165 @@ func (fx *FnExec) execBlock(b *ssa.BasicBlock) {
 
 // ---------------------------------------------------------------- loops
 
+// clearIdiom recognises `for k := range m { delete(m, k) }` (the loop empties m and does nothing
+// else); returns the map value.
+func (fx *FnExec) clearIdiom(li *loopInfo) ssa.Value {
+	var rng *ssa.Range
+	var del *ssa.Call
+	for _, b := range fx.Fn.Blocks {
+		if !li.body[b.Index] {
+			continue
+		}
+		for _, in := range b.Instrs {
+			switch x := in.(type) {
+			case *ssa.Next:
+				r, ok := x.Iter.(*ssa.Range)
+				if !ok || x.IsString || rng != nil && rng != r {
+					return nil
+				}
+				rng = r
+			case *ssa.Extract, *ssa.If, *ssa.Jump, *ssa.DebugRef, *ssa.Phi, *ssa.FieldAddr:
+			case *ssa.UnOp:
+				if x.Op != token.MUL {
+					return nil
+				}
+			case *ssa.Call:
+				bi, ok := x.Call.Value.(*ssa.Builtin)
+				if !ok || bi.Name() != "delete" || del != nil {
+					return nil
+				}
+				del = x
+			default:
+				return nil
+			}
+		}
+	}
+	if rng == nil || del == nil || !sameMapExpr(del.Call.Args[0], rng.X) {
+		return nil
+	}
+	// the deleted key is the iteration key
+	ex, ok := del.Call.Args[1].(*ssa.Extract)
+	if !ok || ex.Index != 1 {
+		return nil
+	}
+	if nx, ok := ex.Tuple.(*ssa.Next); !ok || nx.Iter != rng {
+		return nil
+	}
+	if _, isMap := rng.X.Type().Underlying().(*types.Map); !isMap {
+		return nil
+	}
+	return rng.X
+}
+
+// copyIdiom recognises `for k, v := range src { dst[k] = v }` (nothing else in the body); returns
+// (src, dst).
+func (fx *FnExec) copyIdiom(li *loopInfo) (ssa.Value, ssa.Value) {
+	var rng *ssa.Range
+	var upd *ssa.MapUpdate
+	for _, b := range fx.Fn.Blocks {
+		if !li.body[b.Index] {
+			continue
+		}
+		for _, in := range b.Instrs {
+			switch x := in.(type) {
+			case *ssa.Next:
+				r, ok := x.Iter.(*ssa.Range)
+				if !ok || x.IsString || rng != nil && rng != r {
+					return nil, nil
+				}
+				rng = r
+			case *ssa.Extract, *ssa.If, *ssa.Jump, *ssa.DebugRef, *ssa.Phi:
+			case *ssa.MapUpdate:
+				if upd != nil {
+					return nil, nil
+				}
+				upd = x
+			case *ssa.UnOp:
+				// reload of the destination map field inside the loop (dst is a field expression)
+				if x.Op != token.MUL {
+					return nil, nil
+				}
+			case *ssa.FieldAddr:
+			default:
+				return nil, nil
+			}
+		}
+	}
+	if rng == nil || upd == nil {
+		return nil, nil
+	}
+	if _, isMap := rng.X.Type().Underlying().(*types.Map); !isMap {
+		return nil, nil
+	}
+	k, ok1 := upd.Key.(*ssa.Extract)
+	v, ok2 := upd.Value.(*ssa.Extract)
+	if !ok1 || !ok2 || k.Index != 1 || v.Index != 2 || k.Tuple != v.Tuple {
+		return nil, nil
+	}
+	if nx, ok := k.Tuple.(*ssa.Next); !ok || nx.Iter != rng {
+		return nil, nil
+	}
+	if !types.Identical(rng.X.Type().Underlying(), upd.Map.Type().Underlying()) {
+		return nil, nil
+	}
+	return rng.X, upd.Map
+}
+
 func (fx *FnExec) enterLoop(b *ssa.BasicBlock, li *loopInfo, st *blockState) {
+	if src, dst := fx.copyIdiom(li); src != nil {
+		// summarised exactly: dst' = dst overridden by src (when dst and src are different maps)
+		li.clears = src // reuse: iteration is not executed symbolically
+		mt := src.Type().Underlying().(*types.Map)
+		sv := fx.term(fx.val(src))
+		// the destination expression may be a field load inside the loop: evaluate it here
+		var dv string
+		if u, ok := dst.(*ssa.UnOp); ok && li.body[u.Block().Index] {
+			if fa, ok := u.X.(*ssa.FieldAddr); ok {
+				base := fx.val(fa.X)
+				pt := fa.X.Type().Underlying().(*types.Pointer).Elem()
+				stt := pt.Underlying().(*types.Struct)
+				dv = fx.load(&Place{Kind: PField, Ref: fx.term(base), Struct: stt, Field: fa.Field, Elem: stt.Field(fa.Field).Type(), SName: fx.W.structName(pt)})
+			}
+		}
+		if dv == "" {
+			dv = fx.term(fx.val(dst))
+		}
+		fx.frameCheckMap(firstInstr(b), mt, dv)
+		if fx.onStore != nil {
+			save := fx.cur.pc
+			fx.cur.pc = and(save, "(> "+sv+" 0)")
+			fx.onStore(fx, firstInstr(b), &Place{Kind: PCell, Ref: dv, Elem: mt}, Val{})
+			fx.cur.pc = save
+		}
+		fx.oblige("nilmap", "(or (= "+fx.mapLen(mt, sv)+" 0) (> "+dv+" 0))", firstInstr(b), "assignment to entry in nil map (map copy loop)")
+		dn, vn, ln := fx.W.mapHeapNames(mt)
+		ks, vs := fx.sortOf(mt.Key()), fx.sortOf(mt.Elem())
+		dom, val, l := fx.mapHeaps(mt)
+		nd := fx.havoc("copydom", "(Array "+ks+" Bool)")
+		nv := fx.havoc("copyval", "(Array "+ks+" "+vs+")")
+		nl := fx.havoc("copylen", "Int")
+		srcHas := "(and (> " + sv + " 0) (select (select " + dom + " " + sv + ") qk))"
+		fx.assume("(forall ((qk " + ks + ")) (! (= (select " + nd + " qk) (or (select (select " + dom + " " + dv + ") qk) " + srcHas + ")) :pattern ((select " + nd + " qk))))")
+		fx.assume("(forall ((qk " + ks + ")) (! (= (select " + nv + " qk) (ite " + srcHas + " (select (select " + val + " " + sv + ") qk) (select (select " + val + " " + dv + ") qk))) :pattern ((select " + nv + " qk))))")
+		fx.assume("(and (>= " + nl + " (select " + l + " " + dv + ")) (>= " + nl + " " + fx.mapLen(mt, sv) + ") (<= " + nl + " (+ (select " + l + " " + dv + ") " + fx.mapLen(mt, sv) + ")))")
+		fx.assume("(distinct " + dv + " " + sv + ")") // copying a map onto itself is not summarised
+		fx.setHeap(dn, "(Array Int (Array "+ks+" Bool))", "(store "+dom+" "+dv+" "+nd+")")
+		fx.setHeap(vn, "(Array Int (Array "+ks+" "+vs+"))", "(store "+val+" "+dv+" "+nv+")")
+		fx.setHeap(ln, "(Array Int Int)", "(store "+l+" "+dv+" "+nl+")")
+		return
+	}
+	if m := fx.clearIdiom(li); m != nil {
+		// summarised exactly: after the loop the map is empty; the body is not executed symbolically
+		li.clears = m
+		mt := m.Type().Underlying().(*types.Map)
+		mv := fx.term(fx.val(m))
+		fx.frameCheckMap(firstInstr(b), mt, mv)
+		if fx.onStore != nil {
+			fx.onStore(fx, firstInstr(b), &Place{Kind: PCell, Ref: mv, Elem: mt}, Val{})
+		}
+		fx.mapInit(mt, mv)
+		return
+	}
 	// 1. invariant on entry edges (state = merged entry state; phis take entry values)
 	invs := fx.loopInvariants(li)
 	entryPhi := map[*ssa.Phi]Val{}
@@ -1385,6 +1543,13 @@ func cmpBig(a, b string) int {
 
 func (fx *FnExec) execNext(x *ssa.Next) {
 	rng := x.Iter.(*ssa.Range)
+	if li := fx.loopHead[x.Block().Index]; li != nil && li.clears != nil {
+		// summarised clearing loop: iteration is over
+		tup := x.Type().(*types.Tuple)
+		fx.regs[x] = Val{T: x.Type(), Tup: []Val{{T: types.Typ[types.Bool], S: "false"},
+			{T: tup.At(1).Type(), S: fx.zero(tup.At(1).Type())}, {T: tup.At(2).Type(), S: fx.zero(tup.At(2).Type())}}}
+		return
+	}
 	ok := fx.havoc(regName(x)+"_ok", "Bool")
 	tup := x.Type().(*types.Tuple)
 	if x.IsString {
@@ -1516,4 +1681,20 @@ func escapes(v ssa.Value) bool {
 		}
 	}
 	return false
+}
+
+// sameMapExpr: the two values denote the same map: identical SSA values, or loads of the same
+// field of the same object (the loop body re-reads `x.m`; the loop itself does not assign it).
+func sameMapExpr(a, b ssa.Value) bool {
+	if a == b {
+		return true
+	}
+	ua, ok1 := a.(*ssa.UnOp)
+	ub, ok2 := b.(*ssa.UnOp)
+	if !ok1 || !ok2 || ua.Op != token.MUL || ub.Op != token.MUL {
+		return false
+	}
+	fa, ok1 := ua.X.(*ssa.FieldAddr)
+	fb, ok2 := ub.X.(*ssa.FieldAddr)
+	return ok1 && ok2 && fa.X == fb.X && fa.Field == fb.Field
 }
